@@ -230,7 +230,7 @@ func readerQueries() []realQuery {
 
 // stateKey is one state cell read through a historical state reader.
 type stateKey struct {
-	Kind string // "storage" | "nonce" | "class"
+	Kind string // "storage" | "nonce" | "class" (class hash of a contract) | "classdef" | "casm" | "casm2" (Addr = class hash)
 	Addr felt.Felt
 	Slot felt.Felt
 }
@@ -250,6 +250,19 @@ func readCell(r core.StateReader, k stateKey) (felt.Felt, string) {
 		v, err = r.ContractStorage(&k.Addr, &k.Slot)
 	case "nonce":
 		v, err = r.ContractNonce(&k.Addr)
+	case "classdef": // Class(hash): the block the class was declared at
+		var d *core.DeclaredClassDefinition
+		if d, err = r.Class(&k.Addr); err == nil && d != nil {
+			v = *lib.F(d.At)
+		}
+	case "casm":
+		var h felt.CasmClassHash
+		h, err = r.CompiledClassHash((*felt.SierraClassHash)(&k.Addr))
+		v = felt.Felt(h)
+	case "casm2":
+		var h felt.CasmClassHash
+		h, err = r.CompiledClassHashV2((*felt.SierraClassHash)(&k.Addr))
+		v = felt.Felt(h)
 	default:
 		v, err = r.ContractClassHash(&k.Addr)
 	}
@@ -260,6 +273,17 @@ func readCell(r core.StateReader, k stateKey) (felt.Felt, string) {
 // class: ok (reader handed out, every cell equals the twin's), notfound/pruned/err (no reader),
 // wrong (a cell differs). marker = what the node read for the marker slot (nil if no reader).
 func stateObs(open func(bc *blockchain.Blockchain) (core.StateReader, blockchain.StateCloser, error),
+	node *blockchain.Blockchain, twin twinStateRes, keys []stateKey,
+) (class string, marker *felt.Felt, detail string) {
+	// a panic of the code under test is an answer ("panic"), not the end of the harness
+	perr, panicked, _ := lib.Try(func() error { class, marker, detail = stateObs1(open, node, twin, keys); return nil })
+	if panicked {
+		return "panic", nil, perr.Error()
+	}
+	return class, marker, detail
+}
+
+func stateObs1(open func(bc *blockchain.Blockchain) (core.StateReader, blockchain.StateCloser, error),
 	node *blockchain.Blockchain, twin twinStateRes, keys []stateKey,
 ) (class string, marker *felt.Felt, detail string) {
 	nr, nclose, nerr := open(node)
